@@ -160,6 +160,19 @@ INITIAL_PAIRS = [(i, i) for i in range(1, NOBJ + 1)]
 ABSENT_PAIRS = [(i, j) for i in range(1, NOBJ + 1) for j in range(1, NOBJ + 1) if i != j]
 
 
+# writes of the third kind: UPDATE / DELETE of an EXISTING row (entity X, ids 1..NX, val 0 initially), and — for every kind
+# of row write — an optional per-object `obj.flush()` right after it (`Entity.flush` saves just that object: it does not go
+# through SessionCache.flush, so whether the statement runs inside the session's transaction depends on the
+# `_exec_sql(..., start_transaction=True)` of `_save_created_` / `_save_updated_` / `_save_deleted_` alone)
+X_UPDATE, X_DELETE, NX = 30000000, 40000000, 8
+
+
+def x_tags(rows):
+    """the X table (id, val) as the write tags that lead to it from the initial table"""
+    have = dict(rows)
+    return sorted([X_UPDATE + k for k in range(NX) if have.get(k + 1, 0) != 0] + [X_DELETE + k for k in range(NX) if (k + 1) not in have])
+
+
 def link_tags(pairs):
     """the set of (student, course) links as the write tags that lead to it from the initial link table"""
     pairs = set(pairs)
@@ -185,14 +198,18 @@ class Real(object):
         class Course(self.db.Entity):
             id = PrimaryKey(int)
             students = Set(Student)
-        self.W = W; self.Student = Student; self.Course = Course
+        class X(self.db.Entity):
+            id = PrimaryKey(int)
+            val = Required(int)
+        self.W = W; self.Student = Student; self.Course = Course; self.X = X
         self.db.generate_mapping(create_tables=True)
         with db_session:
             for i in range(1, NOBJ + 1): Student(id=i); Course(id=i)
+            for i in range(1, NX + 1): X(id=i, val=0)
         con = sqlite3.connect(self.path)
         try:
             self.link_table = [n for (n,) in con.execute("select name from sqlite_master where type='table'")
-                               if n.lower() not in ('w', 'student', 'course')][0]
+                               if n.lower() not in ('w', 'x', 'student', 'course')][0]
             cols = [r[1] for r in con.execute('pragma table_info("%s")' % self.link_table)]
             self.link_cols = (next(c for c in cols if 'student' in c.lower()), next(c for c in cols if 'course' in c.lower()))
         finally: con.close()
@@ -220,7 +237,8 @@ class Real(object):
         with db_session:
             r = sorted(t for _, t in select((w.id, w.tag) for w in self.W)[:])
             pairs = select((s.id, c.id) for s in self.Student for c in s.courses)[:]
-        return sorted(r + link_tags(pairs))
+            xs = select((x.id, x.val) for x in self.X)[:]
+        return sorted(r + link_tags(pairs) + x_tags(xs))
 
     def independent_rows(self):
         """the committed state read through an independent connection (nothing of Pony involved)"""
@@ -228,8 +246,9 @@ class Real(object):
         try:
             tags = [r[0] for r in con.execute('select tag from W')]
             pairs = [tuple(r) for r in con.execute('select "%s", "%s" from "%s"' % (self.link_cols + (self.link_table,)))]
+            xs = [tuple(r) for r in con.execute('select id, val from X')]
         finally: con.close()
-        return sorted(tags + link_tags(pairs))
+        return sorted(tags + link_tags(pairs) + x_tags(xs))
 
     def close(self):
         try: self.db.disconnect()
@@ -261,6 +280,8 @@ class Real(object):
         with db_session:
             self.db.execute('delete from W')
             self.db.execute('delete from "%s"' % self.link_table)
+            self.db.execute('delete from X')
+            for i in range(1, NX + 1): self.db.execute('insert into X (id, val) values (%d, 0)' % i)
             for a, b in INITIAL_PAIRS:
                 self.db.execute('insert into "%s" ("%s", "%s") values (%d, %d)' % ((self.link_table,) + self.link_cols + (a, b)))
         self.tr.events[:] = []
@@ -287,14 +308,20 @@ class Real(object):
         k = p['k']
         if k == 'skip': return
         if k == 'write':
-            w = p['w']
-            if w >= LINK_REMOVE:
+            w = p['w']; obj = None
+            if w >= X_DELETE:
+                obj = self.X[w - X_DELETE + 1]; feature('branch:write-row-delete'); obj.delete()
+            elif w >= X_UPDATE:
+                obj = self.X[w - X_UPDATE + 1]; feature('branch:write-row-update'); obj.val = 1
+            elif w >= LINK_REMOVE:
                 a, b = INITIAL_PAIRS[w - LINK_REMOVE]; feature('branch:write-link-remove')
                 self.Student[a].courses.remove(self.Course[b])
             elif w >= LINK_ADD:
                 a, b = ABSENT_PAIRS[w - LINK_ADD]; feature('branch:write-link-add')
                 self.Student[a].courses.add(self.Course[b])
-            else: self.W(tag=w)
+            else: obj = self.W(tag=w)
+            if p.get('oflush') and obj is not None:
+                feature('branch:per-object-flush'); obj.flush()          # Entity.flush(): saves this object only
             return
         if k == 'flush': flush(); feature('branch:explicit-flush'); return
         if k == 'commit': feature('branch:body-commit'); commit(); return
@@ -303,7 +330,8 @@ class Real(object):
         if k == 'observe':
             r = sorted(t for _, t in select((w.id, w.tag) for w in self.W)[:])       # a query: flushes whatever is pending (id kept: a one-attribute projection is DISTINCT)
             pairs = select((s.id, c.id) for s in self.Student for c in s.courses)[:]
-            self.trace.append(sorted(r + link_tags(pairs))); return
+            xs = select((x.id, x.val) for x in self.X)[:]
+            self.trace.append(sorted(r + link_tags(pairs) + x_tags(xs))); return
         if k == 'raise': raise make_exc(p['e'])
         if k == 'seq':
             for q in p['ps']: self.run(q)
@@ -518,7 +546,8 @@ MODE = ['plain']
 
 def reset_link_pool(rng):
     """every (student, course) pair is touched at most once per program (an add of a present link would be a no-op)"""
-    LINK_POOL[:] = [LINK_ADD + k for k in range(len(ABSENT_PAIRS))] + [LINK_REMOVE + k for k in range(len(INITIAL_PAIRS))]
+    LINK_POOL[:] = [LINK_ADD + k for k in range(len(ABSENT_PAIRS))] + [LINK_REMOVE + k for k in range(len(INITIAL_PAIRS))] + \
+                   [rng.choice([X_UPDATE, X_DELETE]) + k for k in range(NX)]
     rng.shuffle(LINK_POOL)
     # a body that commits itself and is then retried would repeat a link change that is already committed (a no-op on
     # the real side): a program has either link writes or its own commit()/rollback() calls
@@ -532,10 +561,10 @@ def rand_leafs(rng, base):
     if rng.random() < 0.5: ps.append({'k': 'observe'})
     if rng.random() < 0.75:
         for j in range(rng.choice([0, 1, 1, 2])):
-            ps.append({'k': 'write', 'w': base + j})
+            ps.append(dict({'k': 'write', 'w': base + j}, **({'oflush': True} if rng.random() < 0.2 else {})))
     if LINK_POOL and rng.random() < 0.3:
         for j in range(rng.choice([1, 1, 2])):
-            if LINK_POOL: ps.append({'k': 'write', 'w': LINK_POOL.pop()})
+            if LINK_POOL: ps.append(dict({'k': 'write', 'w': LINK_POOL.pop()}, **({'oflush': True} if rng.random() < 0.4 else {})))
     if rng.random() < 0.25: ps.append({'k': rng.choice(['flush', 'observe'])})
     if MODE[0] == 'manual' and rng.random() < 0.3: ps.append({'k': rng.choice(['commit', 'commit', 'rollback'])})     # the body commits / rolls back itself
     return ps
@@ -670,7 +699,11 @@ def scripted_links(kind, o, ops, flush_kind, outcomes, inner=False):
         if 'add' in ops: ws.append(LINK_ADD + 2 * i)
         if 'remove' in ops: ws.append(LINK_REMOVE + i)
         if 'add2' in ops: ws.append(LINK_ADD + 2 * i + 1)
-        ps = [{'k': 'mark', 'n': i}, {'k': 'observe'}] + [{'k': 'write', 'w': w} for w in ws]
+        if 'create' in ops: ws.append(500 + i)
+        if 'update' in ops: ws.append(X_UPDATE + 2 * i)
+        if 'delete' in ops: ws.append(X_DELETE + 2 * i + 1)
+        head = [{'k': 'mark', 'n': i}] + ([{'k': 'observe'}] if 'noread' not in ops else [])
+        ps = head + [dict({'k': 'write', 'w': w}, **({'oflush': True} if flush_kind == 'object' else {})) for w in ws]
         if flush_kind == 'explicit': ps.append({'k': 'flush'})
         elif flush_kind == 'query': ps.append({'k': 'observe'})
         if out != 'ret': ps.append({'k': 'raise', 'e': out})
@@ -690,7 +723,7 @@ def scripted_links(kind, o, ops, flush_kind, outcomes, inner=False):
             'allowed': o['allowed'] if kind in ('decorator', 'cm') else
                        ({'yes': ['u6'], 'raises': []} if kind == 'bottle' else {'yes': [], 'raises': []}),
             'retryable': o['retryable'] if kind == 'decorator' else {'yes': list(TX), 'raises': []},
-            'commit_fail': [], 'links': True}
+            'commit_fail': [], 'links': True, 'noread': 'noread' in ops}
     return {'prog': prog, 'env': env, 'spec': spec}
 
 
@@ -808,6 +841,35 @@ def manual_grid(ctx, rng):
     return cases
 
 
+def object_flush_grid(ctx, rng):
+    """row writes whose FIRST statement of the session is a per-object `obj.flush()` after create / update / delete (and the
+    same writes flushed by flush(), by a query, or not at all), then the outcome: for every session flavour (default
+    optimistic, strict, immediate, serializable, optimistic=False) x decorator (retry 0/1) / context manager / Flask /
+    Bottle x directly or inside an inner session x with or without a read before the write"""
+    cases = []
+    opsets = [['create'], ['update'], ['delete'], ['update', 'delete'], ['delete', 'create'], ['create', 'update', 'delete']]
+    combos = list(itertools.product(opsets, ['object', 'object', 'explicit', 'query', 'none'], ['ret', 'u0', 'u2', 'u5'],
+                                    ['decorator', 'decorator1', 'cm', 'flask', 'bottle'], [False, True], [False, True],
+                                    ['default', 'default', 'strict', 'immediate', 'ser', 'pessimistic']))
+    must = [c for c in combos if c[1] == 'object' and c[2] == 'u0' and len(c[0]) == 1 and not c[4] and c[6] == 'default' and c[3] in ('cm', 'decorator1')]
+    if not ctx.thorough: combos = rng.sample(combos, 170) + must
+    else: combos = rng.sample(combos, 4000) + must
+    for ops, fk, out, kind, inner, noread, flavour in combos:
+        o = {'sid': next(SID)}
+        o.update(mk_pred(rng, 'allowed', rng.choice(['default', 'list']), classes=['U2']))
+        o.update(mk_pred(rng, 'retryable', 'default'))
+        if flavour == 'strict': o['_strict'] = True
+        elif flavour == 'immediate': o['_immediate'] = True
+        elif flavour == 'ser': o['ser'] = True
+        elif flavour == 'pessimistic': o['_optimistic'] = False
+        outcomes = [out]
+        if kind == 'decorator1':
+            kind = 'decorator'; o['retry'] = 1; outcomes = ['u3', out]
+        if kind in ('flask', 'bottle'): o = {'sid': 0, 'allowed': {'yes': [], 'raises': []}, 'retryable': {'yes': list(TX), 'raises': []}}
+        cases.append(scripted_links(kind, o, list(ops) + (['noread'] if noread else []), fk, outcomes, inner and not o.get('ser')))
+    return cases
+
+
 def link_grid(ctx, rng):
     """m2m-only bodies: {add, remove, add+remove, two adds} x {explicit flush, flush by query, no flush} x outcome x
     decorator (retry 0/1) / context manager / Flask / Bottle x (directly | inside an inner session) x strict/immediate"""
@@ -841,6 +903,7 @@ def oracle(ctx, case, obs):
         return pred_result(spec['allowed'], e)[0] == 'yes'
     marks = [t for t in obs['trace'] if isinstance(t, int)]
     saws = [t for prev, t in zip([None] + obs['trace'], obs['trace']) if isinstance(t, list) and isinstance(prev, int)]   # what an execution saw right at its start
+    if spec.get('noread'): saws = []        # these bodies do not look at the database when they start
     n = len(marks) if kind != 'generator' else 1
     committed = obs['raw_rows']           # the committed state is what an independent connection sees
     if obs['raw_rows'] != obs['committed']:
@@ -1262,6 +1325,7 @@ def run_all(ctx, real):
     run_cases(ctx, real, grid(ctx, rng), 'grid')
     run_cases(ctx, real, gen_grid(ctx, rng), 'generator-grid')
     run_cases(ctx, real, link_grid(ctx, rng), 'm2m-link-grid')
+    run_cases(ctx, real, object_flush_grid(ctx, rng), 'object-flush-grid')
     run_cases(ctx, real, manual_grid(ctx, rng), 'manual-commit-grid')
     n = ctx.scale(700, 12000)
     cases = []
